@@ -270,6 +270,38 @@ def apply_directives(body, directives, unit):
             st, pe, bs, be = closures[k]
             body.edit(toks[st].start, toks[bs].start, val + " ", "R7-closure", body.text(st, bs - 1) + "  =>  " + val)
             bind = ""
+            if m.group(2) == "sig":
+                # R7c: the contract names the parameters its way; when the real closure calls a plain parameter something else
+                # (a rename), the real name is bound from the contract's at the start of the body
+                ps0 = st + 1 if toks[st].text == "move" else st
+                if toks[ps0].text == "|":
+                    from extract import split_args as _sa
+                    real_parts = _sa(toks, ps0 + 1, pe)
+                    mh = re.match(r"\s*(?:move\s+)?\|(.*?)\|\s*(?:->|$|\{|[^|])", val, re.S)
+                    dnames = []
+                    if mh:
+                        depth_ = 0
+                        cur_ = ""
+                        segs_ = []
+                        for ch in mh.group(1):
+                            if ch in "(<[":
+                                depth_ += 1
+                            elif ch in ")>]":
+                                depth_ -= 1
+                            if ch == "," and depth_ == 0:
+                                segs_.append(cur_)
+                                cur_ = ""
+                            else:
+                                cur_ += ch
+                        if cur_.strip():
+                            segs_.append(cur_)
+                        dnames = [sg.split(":")[0].strip() for sg in segs_]
+                    if len(dnames) == len(real_parts):
+                        for dn, pt in zip(dnames, real_parts):
+                            if len(pt) >= 1 and pt[0].kind == "ident" and (len(pt) == 1 or pt[1].text == ":") and pt[0].text not in ("_", "mut", "ref") and re.fullmatch(r"[A-Za-z_]\w*", dn) and pt[0].text != dn and not pt[0].text.startswith("_"):
+                                bind += f"let {pt[0].text} = {dn}; "
+                        if bind:
+                            body.report.append(("R7c-closure-param-rename", "closure parameter(s) renamed in the source: " + bind.strip()))
             if m.group(2) == "sigd":
                 # `sigd`: the contract names the parameters `__p` (one) or `__p0, __p1, ..` (several); the closure's ORIGINAL
                 # parameter patterns are kept and bound from them at the start of the body: `let <pattern> = __p;`
